@@ -15,7 +15,19 @@ Tie:   (0) harness/translate_functions.py regenerates lean/LabreaModel/Generated
            universe, `keys`, `explain`, `(e >> p)(o)` are compared;
        (2) every helper of labrea.functions is run on free symbolic operands / concrete
            containers with each parameter given as a constant and as an Option, and the result
-           term, keys() and explain() are compared with the model's.
+           term, keys() and explain() are compared with the model's;
+       (3) a directed family run in every run (`mutable_family`): steps whose parameters are
+           written as constants of every kind (scalars, list / dict / set, containers nested in
+           containers and in tuples), built through every public spelling (@pipeline_step on a
+           def / keyword-only def / callable object / functools.partial, Value defaults,
+           PartialApplication(...), PartialApplication.lift with and without keywords,
+           labrea.functions.partial with keyword and positional arguments), whose bodies edit the
+           objects they receive in place (append / extend / insert / pop / sort / reverse /
+           clear / setdefault / update / ... at any depth); one step object used several times
+           in a pipeline and by several pipelines; helpers taking container arguments followed
+           by a step editing its input; helper function arguments that edit what they are called
+           with.  A step's transform is a function of (x, options) only, so all of (1) applies,
+           and the value a body received (logged by deep copy at entry) is the value written.
 Oracle on the implementation alone: iteration order = application order; bracketing does not
 change steps / transform / keys; empty pipelines are neutral; (a + b).transform = b after a;
 (e >> p)(o) = p.transform(e(o), o); keys()/explain() = union over the steps and contain the
@@ -59,8 +71,12 @@ SPEC = PropSpec(
         "is compared with CPython on every generated case, not proved against it",
     ],
     assumptions=[
-        "step bodies are pure functions of their arguments (no side effects); values are "
+        "step bodies are functions of their arguments; values are "
         "None/bool/int/str/list/tuple/set/dict, records of uninterpreted functions and free symbols",
+        "a body (or a function argument of a helper) that edits the objects it receives in place is modelled by the "
+        "pure function of the values written in the step's definition: the model evaluates every parameter afresh "
+        "at each evaluation, which is what 'evaluated from the same options at evaluation time' is read as; the "
+        "bodies of the directed family compute their result from snapshots taken at entry and edit afterwards",
         "parameters are constants or Option(key[, default]) on flat keys with non-templated values; other "
         "Evaluatables behave through the same three methods (evaluate/keys/explain)",
         "all exceptions raised inside an evaluate request are observed as EvaluationError (their class "
@@ -81,6 +97,7 @@ RUNNER = r'''
 import sys, json, functools, itertools, types, inspect, copy
 from collections.abc import Mapping
 import labrea
+import labrea.application
 from labrea import Option
 from labrea.pipeline import Pipeline, PipelineStep, pipeline_step, Identity, _identity
 from labrea.types import Value, Evaluatable
@@ -241,6 +258,181 @@ def free_fn(name):
     return FREE[name]
 
 
+# ---- bodies that edit what they receive.  What such a body computes is a function of the values it was
+# handed (snapshots taken at entry); afterwards it edits the very objects it was handed, in place.  The
+# property's reading (and the model's): a parameter is evaluated afresh at every evaluation, so what a body is
+# handed is always the constant as written / the option's value, whatever earlier evaluations did to theirs.
+MUT = {"entries": 0, "checked": 0, "bad": []}
+CUR = {"options": None}          # the dictionary of the evaluation in progress (set by run_pipe)
+MFREE = {}
+
+
+class EditFailed(Exception):
+    pass
+
+
+def scribble(v):
+    """edit every container reachable from v, in place"""
+    if isinstance(v, list):
+        for e in list(v):
+            scribble(e)
+        v.append("#m")
+    elif isinstance(v, dict):
+        for e in list(v.values()):
+            scribble(e)
+        v["#m"] = v.get("#m", 0) + 1
+    elif isinstance(v, set):
+        v.add("#m%d" % len(v))
+    elif isinstance(v, tuple):
+        for e in v:
+            scribble(e)
+
+
+def mfree_fn(name):
+    """the free function `name`, except that it scribbles over its arguments after reading them"""
+    if name not in MFREE:
+        def f(*a, **k):
+            r = Rec(name, copy.deepcopy(a), tuple(copy.deepcopy(list(k.items()))))
+            for v in a:
+                scribble(v)
+            for v in k.values():
+                scribble(v)
+            return r
+        f.__name__ = "mfree_" + name
+        MFREE[name] = f
+        FN_NAMES[id(f)] = "free:" + name       # as a value it is the free function it denotes
+    return MFREE[name]
+
+
+def apply_edit(root, path, op, arg, x):
+    node = root
+    for k in path:
+        node = node[k]
+    if op == "scribble":
+        return scribble(node)
+    if isinstance(arg, dict) and "input" in arg:
+        arg = copy.deepcopy(x)
+    else:
+        arg = dec(arg)
+    if op == "append":
+        node.append(arg)
+    elif op == "extend":
+        node.extend(arg)
+    elif op == "iadd":
+        node += arg
+    elif op == "insert":
+        node.insert(0, arg)
+    elif op == "pop":
+        node.pop()
+    elif op == "popkey":
+        node.pop(arg)
+    elif op == "popitem":
+        node.popitem()
+    elif op == "sort":
+        node.sort()
+    elif op == "reverse":
+        node.reverse()
+    elif op == "clear":
+        node.clear()
+    elif op == "setdefault":
+        node.setdefault(arg[0], arg[1])
+    elif op == "setitem":
+        node[arg[0]] = arg[1]
+    elif op == "delitem":
+        del node[arg]
+    elif op == "update":
+        node.update(arg)
+    elif op == "add":
+        node.add(arg)
+    elif op == "discard":
+        node.remove(arg)
+    else:
+        raise ValueError("bad edit %r" % op)
+
+
+def mut_core(tag, d):
+    base = PRIMS[d["prim"]] if d["base"] == "dec" else free_fn(d["name"])
+    params = d.get("params", [])
+    names = [n for n, _ in params]
+    spec = dict((n, b) for n, b in params)
+    edits = d.get("edits", [])
+    positional = d.get("via") == "fpartial_pos"
+
+    def core(x, got):
+        MUT["entries"] += 1
+        xs = copy.deepcopy(x)
+        snap = [(n, copy.deepcopy(got[n])) for n in names]          # what the body received, logged at entry
+        o = CUR["options"]
+        for n, v in snap:
+            b = spec[n]
+            if "c" in b:
+                want = dec(b["c"])
+            elif o is not None and (b["o"] in o or "d" in b):
+                want = resolve_bparam(b, o)
+            else:
+                continue
+            MUT["checked"] += 1
+            if enc_s(v) != enc_s(want):
+                MUT["bad"].append({"step": tag, "parameter": n, "written": enc(want), "received": enc(v),
+                                   "evaluation": MUT["entries"]})
+        exc = None
+        try:
+            r = base(*([v for _, v in snap] + [xs])) if positional else base(xs, **dict(snap))
+        except Exception as e:
+            exc = e
+        for target, path, op, arg in edits:
+            if target == "x":
+                scribble(x)
+                continue
+            try:
+                apply_edit(got[target], path, op, arg, xs)
+            except Exception as e:
+                raise EditFailed("%s of parameter %s: %s" % (op, target, type(e).__name__))
+        if exc is not None:
+            raise exc
+        return r
+    return core
+
+
+def build_mut(tag, d):
+    """every public spelling of a step with parameters: d["via"]"""
+    core = mut_core(tag, d)
+    params = d.get("params", [])
+    names = [n for n, _ in params]
+    vals = [bparam(b) for _, b in params]
+    via = d.get("via", "dec")
+    got = "{%s}" % ", ".join("%r: %s" % (n, n) for n in names)
+    ns = {"core": core}
+    if via in ("dec", "lift", "decvalue", "deckwonly", "deccallable"):
+        for i, v in enumerate(vals):
+            ns["_d%d" % i] = Value(v) if (via == "decvalue" and not isinstance(v, Evaluatable)) else v
+        defaults = ["%s=_d%d" % (n, i) for i, n in enumerate(names)]
+        sig = "x, *, " + ", ".join(defaults) if (via == "deckwonly" and names) else ", ".join(["x"] + defaults)
+        if via == "deccallable":
+            src = "class StepBody:\n    def __call__(self, %s):\n        return core(x, %s)\nf = StepBody()\n" % (sig, got)
+        else:
+            src = "def f(%s):\n    return core(x, %s)\n" % (sig, got)
+        exec(src, ns)
+        f = ns["f"]
+        return PipelineStep(labrea.application.PartialApplication.lift(f)) if via == "lift" else pipeline_step(f)
+    if via == "fpartial_pos":
+        def f(*a):
+            return core(a[-1], dict(zip(names, a[:-1])))
+        return PipelineStep(F.partial(f, *vals))
+    exec("def f(%s):\n    return core(x, %s)\n" % (", ".join(["x"] + names), got), ns)
+    f = ns["f"]
+    kw = dict(zip(names, vals))
+    if via == "liftkw":
+        return PipelineStep(labrea.application.PartialApplication.lift(f, **kw))
+    if via == "pa":
+        return PipelineStep(labrea.application.PartialApplication(f, **kw))
+    if via == "decpartial":
+        return pipeline_step(functools.partial(f, **kw))
+    if via == "fpartial":
+        return PipelineStep(F.partial(f, **kw))
+    raise ValueError("bad spelling %r" % via)
+
+
 TYPES = {"int": int, "str": str, "list": list, "tuple": tuple, "dict": dict, "set": set, "bool": bool,
          "Mapping": Mapping, "NoneType": type(None), "object": object}
 TYPE_NAMES = {id(v): k for k, v in TYPES.items()}
@@ -263,7 +455,7 @@ def dec(j):
         return Rec(j["R"], [dec(x) for x in j.get("a", [])], [(k, dec(v)) for k, v in j.get("k", [])])
     if "F" in j:
         name = j["F"]
-        f = PRIMS[name[5:]] if name.startswith("prim:") else free_fn(name[5:])
+        f = PRIMS[name[5:]] if name.startswith("prim:") else mfree_fn(name[6:]) if name.startswith("mfree:") else free_fn(name[5:])
         a = [dec(x) for x in j.get("a", [])]
         k = {n: dec(v) for n, v in j.get("k", [])}
         return functools.partial(f, *a, **k) if (a or k) else f
@@ -410,6 +602,8 @@ class Build:
             o = PipelineStep(e) if as_step else e
         elif k == "helper":
             o = helper_step(d["name"], d.get("args", []))
+        elif k == "mut":
+            o = build_mut(tag, d)
         elif k == "nested":
             o = PipelineStep(self.expr(d["expr"]))
         else:
@@ -429,7 +623,7 @@ class Build:
             return self.operand(e[1], True)
         if h == "C":
             d = self.defs[e[1]]
-            return self.operand(e[1], d["k"] in ("dec", "free", "helper", "nested"))
+            return self.operand(e[1], d["k"] in ("dec", "free", "helper", "nested", "mut"))
         if h == "K":
             s = self.operand(e[1], True)
             return Pipeline(s, self.expr(e[2])) if len(e) > 2 else Pipeline(s)
@@ -500,7 +694,7 @@ def option_keys(b, case, acc):
             of_bparam(x)
     def of_step(tag):
         d = b.defs[tag]
-        if d["k"] in ("dec", "free"):
+        if d["k"] in ("dec", "free", "mut"):
             for _, p in d.get("params", []):
                 of_bparam(p)
         elif d["k"] == "helper":
@@ -523,8 +717,10 @@ def option_keys(b, case, acc):
 
 
 def run_pipe(case):
+    MUT.update(entries=0, checked=0, bad=[])
     b = Build(case)
     options = {k: dec(v) for k, v in case.get("options", [])}
+    CUR["options"] = options
     inputs = [dec(x) for x in case.get("inputs", [])]
     p = b.expr(case["expr"])
     out = {"iter": [b.ident(s) for s in p], "empty": bool(p.empty),
@@ -618,7 +814,10 @@ def run_pipe(case):
                 oracle.append({"what": "%s changes list(p)" % name,
                                "detail": {"p": [b.ident(s) for s in ab], "with_empty": [b.ident(s) for s in q]}})
     # history independence: a long-lived pipeline evaluated on other dictionaries in between (a defaulted parameter's
-    # key absent, then present, or the other way round) gives what a freshly built one gives
+    # key absent, then present, or the other way round) gives what a freshly built one gives; and, after all the
+    # evaluations above (of p and of the other pipelines sharing its step objects), evaluating it on the same
+    # dictionary once more gives what a freshly built one gives
+    others = []
     for k, has_default in sorted(set(named)):
         if not has_default:
             continue
@@ -627,6 +826,10 @@ def run_pipe(case):
             del o2[k]
         else:
             o2[k] = 7
+        others.append(o2)
+    others.append(dict(options))
+    for o2 in others:
+        CUR["options"] = o2
         fresh = Build(case).expr(case["expr"])
         for x in inputs:
             warm = res(lambda x=x: p.transform(copy.deepcopy(x), o2))
@@ -634,11 +837,17 @@ def run_pipe(case):
             if not same(warm, cold):
                 oracle.append({"what": "transform depends on what the pipeline was evaluated with earlier",
                                "detail": {"input": enc(x), "first": enc_s(options), "then": enc_s(o2), "got": warm, "fresh": cold}})
+        CUR["options"] = options
         for x, r in zip(inputs, out["tf"]):
             again = res(lambda x=x: p.transform(copy.deepcopy(x), options))
             if not same(again, r):
                 oracle.append({"what": "transform on the same dictionary changed after the pipeline was evaluated on another one",
                                "detail": {"input": enc(x), "options": enc_s(options), "between": enc_s(o2), "before": r, "after": again}})
+    # what a step body received for a parameter is the constant as written (the option's value), every time
+    if MUT["bad"]:
+        oracle.insert(0, {"what": "a step body received a parameter value other than the one written in the step's definition",
+                          "detail": {"first": MUT["bad"][0], "count": len(MUT["bad"])}})
+    out["mut"] = {"entries": MUT["entries"], "checked": MUT["checked"]}
     out["oracle"] = oracle
     out["alias"] = {str(t): a for t, a in b.alias.items() if t != a}
     return out
@@ -756,6 +965,13 @@ def run_helper(case):
     out = {"tf": res(lambda: step.transform(copy.deepcopy(x), options)),
            "keys": keyres(lambda: step.keys(options)), "explain": keyres(lambda: step.explain(options))}
     oracle = []
+    # the same step object evaluated again (and once through >>) gives the same value
+    again = res(lambda: step.transform(copy.deepcopy(x), options))
+    piped = res(lambda: (Value(x) >> step)(options))
+    for how, r in (("evaluated a second time", again), ("applied with >>", piped)):
+        if not same(out["tf"], r):
+            oracle.append({"what": "helper %s gives another value when %s" % (name, how),
+                           "detail": {"first": out["tf"], "then": r}})
     named = [k for _, b in case.get("args", []) for k in binding_keys(b)]
     if "ok" in out["keys"]:
         missing = sorted({k for k, _ in named if k in options} - set(out["keys"]["ok"]))
@@ -1266,6 +1482,304 @@ def exhaustive(max_n: int) -> List[dict]:
     return cs
 
 
+
+# ----------------------------------------------------------------------------- steps that edit what they receive
+
+# constants a parameter default can be written as: (kind, the constant in the case language)
+MUT_CONSTS: List[Tuple[str, Any]] = [
+    ("scalar", 0), ("scalar", 1), ("scalar", "ab"), ("scalar", None), ("scalar", True),
+    ("list", []), ("list", [3, 1, 2]), ("list", ["b", "a"]),
+    ("dict", DICT()), ("dict", DICT(["k", 1], ["j", 2])),
+    ("set", {"s": [1, 2]}),
+    ("list-in-list", [[1], [2, 3]]), ("list-in-dict", DICT(["k", [1]], ["e", []])),
+    ("dict-in-list", [DICT(["n", 0])]), ("list-in-tuple", TUP(1, [2])), ("dict-in-tuple", TUP(DICT(["n", 0]), "s")),
+    ("depth-4", DICT(["a", [DICT(["b", [1, 2]])]])),
+]
+# the public spellings of a step with parameters (RUNNER.build_mut)
+MUT_VIAS = ["dec", "deckwonly", "deccallable", "decvalue", "decpartial", "lift", "liftkw", "pa", "fpartial", "fpartial_pos"]
+
+
+def container_nodes(j, path=()) -> List[Tuple[list, str, Any]]:
+    """[(path, kind, node)] for the containers inside a constant of the case language"""
+    out = []
+    if isinstance(j, list):
+        out.append((list(path), "list", j))
+        for i, e in enumerate(j):
+            out += container_nodes(e, path + (i,))
+    elif isinstance(j, dict) and "t" in j:
+        for i, e in enumerate(j["t"]):
+            out += container_nodes(e, path + (i,))
+    elif isinstance(j, dict) and "d" in j:
+        out.append((list(path), "dict", j))
+        for k, e in j["d"]:
+            out += container_nodes(e, path + (k,))
+    elif isinstance(j, dict) and "s" in j:
+        out.append((list(path), "set", j))
+    return out
+
+
+def edit_menu(kind: str, node) -> List[Tuple[str, Any]]:
+    """in-place operations that are valid on the node as written and change it"""
+    if kind == "list":
+        ops = [("append", 9), ("append", {"input": 1}), ("extend", [7, 8]), ("iadd", [6]), ("insert", "i")]
+        if len(node) >= 1:
+            ops += [("pop", None), ("clear", None), ("delitem", 0)]
+        if len(node) >= 2 and node != node[::-1]:
+            ops.append(("reverse", None))
+        if len(node) >= 2 and all(isinstance(e, int) for e in node) and node != sorted(node):
+            ops.append(("sort", None))
+        if len(node) >= 2 and all(isinstance(e, str) for e in node) and node != sorted(node):
+            ops.append(("sort", None))
+        return ops
+    if kind == "dict":
+        ops = [("setdefault", ["#k", 1]), ("setdefault", ["#l", [0]]), ("setitem", ["#k", [0]]), ("update", DICT(["#u", 2]))]
+        if node["d"]:
+            first = node["d"][0][0]
+            ops += [("popitem", None), ("clear", None), ("popkey", first), ("setitem", [first, "changed"])]
+        return ops
+    ops = [("add", 99)]
+    if node["s"]:
+        ops += [("discard", node["s"][0]), ("clear", None)]
+    return ops
+
+
+def edits_for(rng: random.Random, name: str, const) -> List[list]:
+    """edits of the containers of one constant parameter: always the deepest one, and some of the others;
+    children before parents, so that every path is valid when its edit runs"""
+    nodes = container_nodes(const)
+    if not nodes:
+        return []
+    nodes.sort(key=lambda n: -len(n[0]))
+    chosen = [nodes[0]] + [n for n in nodes[1:] if rng.random() < 0.5]
+    out = []
+    for path, kind, node in chosen:
+        op, arg = rng.choice(edit_menu(kind, node))
+        out.append([name, path, op, arg])
+    return out
+
+
+def mut_step(rng: random.Random, kind_const: Tuple[str, Any], via: str, keys: List[str]) -> dict:
+    """a step with a parameter written as the given constant whose body edits every parameter it receives"""
+    ckind, const = kind_const
+    if via not in ("fpartial", "fpartial_pos") and rng.random() < 0.25:
+        # a two-argument Python body: x + k, x == k, ...
+        d = {"k": "mut", "base": "dec", "prim": rng.choice(["add", "eqk", "mul", "rsub"]), "via": via,
+             "params": [["k", C(const)]], "edits": edits_for(rng, "k", const)}
+    else:
+        names = ["seen", "acc", "cfg"]
+        rng.shuffle(names)
+        n = rng.choice([1, 1, 2, 3])
+        where = rng.randrange(n)
+        params, edits = [], []
+        for i, nm in enumerate(names[:n]):
+            if i == where:
+                params.append([nm, C(const)])
+                edits += edits_for(rng, nm, const)
+                continue
+            r = rng.random()
+            if r < 0.35:
+                other = rng.choice(MUT_CONSTS)[1]
+                params.append([nm, C(other)])
+                edits += edits_for(rng, nm, other)
+            elif r < 0.7:
+                params.append([nm, O(rng.choice(keys))])
+                edits.append([nm, [], "scribble", None])
+            else:
+                params.append([nm, O(rng.choice(keys), rng.choice([[1], 2, DICT(["k", [1]])]), True)])
+                edits.append([nm, [], "scribble", None])
+        d = {"k": "mut", "base": "free", "name": rng.choice(["f", "g", "h"]), "via": via, "params": params, "edits": edits}
+    if rng.random() < 0.3:
+        d["edits"].append(["x", [], "scribble", None])
+    d["const_kind"] = ckind
+    return d
+
+
+def mutable_family(seed: int, thorough: bool) -> List[dict]:
+    """directed family, run in every run: steps whose parameters are written as constants of every kind, built
+    through every public spelling, with bodies that edit what they receive; a step object used twice in a
+    pipeline and in several pipelines (run_pipe builds several from the same objects and then compares the
+    long-lived one with a freshly built one); helpers taking container arguments"""
+    rng = random.Random(1000003 * seed + 13)
+    g = Gen(rng)
+    keys = ["A", "B", "Cc"]
+    cs: List[dict] = []
+
+    def options():
+        o = [[k, rng.choice(KVALS)] for k in keys if rng.random() < 0.7]
+        if rng.random() < 0.6:
+            o.append(["SRC", rng.choice(UNIVERSE)])
+        return o
+
+    def source():
+        return rng.choice([C(rng.choice(UNIVERSE)), O("SRC"), O("SRC", 5, True), C([1, 2]), C([])])
+
+    def inputs():
+        return rng.sample(UNIVERSE, 3) + [rng.choice([[5], [], [[1]]])]
+
+    # (a) every constant x every spelling, the shapes in rotation
+    i = 0
+    for rep in range(3 if thorough else 1):
+        for kc in MUT_CONSTS:
+            for via in MUT_VIAS:
+                m = mut_step(rng, kc, via, keys)
+                q = mut_step(rng, rng.choice(MUT_CONSTS), rng.choice(MUT_VIAS), keys) if rng.random() < 0.5 \
+                    else {"k": "free", "name": "u", "params": [["a", g.bparam(keys, KVALS)[0]]]}
+                steps = [[1, m], [2, q]]
+                shape = i % 6
+                i += 1
+                if shape == 0:
+                    expr = ["+", ["S", 1], ["S", 1]]
+                elif shape == 1:
+                    expr = ["+", ["+", ["S", 1], ["S", 2]], ["S", 1]]
+                elif shape == 2:
+                    expr = ["+", ["S", 1], ["+", ["S", 2], ["+", ["E"], ["S", 1]]]]
+                elif shape == 3:
+                    steps.append([3, {"k": "nested", "expr": ["+", ["S", 1], ["S", 2]]}])
+                    expr = ["+", ["+", ["E"], ["S", 1]], ["S", 3]]
+                elif shape == 4:
+                    expr = ["K", 1, ["+", ["E"], ["S", 1]]]
+                else:
+                    expr = ["+", ["+", ["S", 2], ["S", 1]], ["E"]]
+                cs.append({"kind": "pipe", "steps": steps, "expr": expr, "options": options(), "inputs": inputs(),
+                           "source": source(), "family": "mut"})
+    # (b) such steps among the steps of the random generator, any bracketing, some used several times
+    for _ in range(600 if thorough else 150):
+        c = g.case(rng.choice([1, 2, 3, 4]))
+        leaves = leaves_of(c["expr"])
+        for _ in range(rng.choice([1, 1, 2])):
+            tag = len(c["steps"]) + 1
+            c["steps"].append([tag, mut_step(rng, rng.choice(MUT_CONSTS), rng.choice(MUT_VIAS), keys)])
+            for _ in range(rng.choice([1, 2, 2, 3])):
+                leaves.insert(rng.randint(0, len(leaves)), ["S", tag])
+        c["expr"] = fix_left(g.tree(leaves))
+        if c["expr"][0] not in ("+", "E", "K"):
+            c["expr"] = ["+", ["E"], c["expr"]]
+        c["family"] = "mut"
+        cs.append(c)
+    # (c) helpers handing out (parts of) a container argument, followed by a step editing its input in place
+    scrib = {"k": "mut", "base": "free", "name": "h", "via": "dec", "params": [], "edits": [["x", [], "scribble", None]],
+             "const_kind": "none"}
+    handing = [("get_from", [("__x", [[1], [2]])], [0, 1, 5]),
+               ("get_from", [("__x", DICT(["k", [1]]))], ["k", "z"]),
+               ("get", [("__x", 5), ("default", [0])], [[1], []]),
+               ("get", [("__x", "z"), ("default", DICT(["n", [1]]))], [DICT(["k", 1]), DICT()]),
+               ("merge", [("mapping", DICT(["k", [1]]))], [DICT(["a", [2]]), DICT()]),
+               ("concat", [("iterable", [[4], [5]])], [[[1]], []]),
+               ("append", [("item", [9])], [[1], []]),
+               ("add", [("__x", [[3]])], [[[1]], []]),
+               ("reduce", [("func", FN("mfree:g")), ("initial", [0])], [[1, 2], []]),
+               ("reduce", [("func", FN("mfree:g")), ("initial", DICT(["n", [0]]))], [[1], [2, 3]]),
+               ("partial", [("__func", FN("mfree:f")), ("args", {"many": [C([1, 2]), C(DICT(["k", [1]]))]}),
+                            ("kwargs", {"dict": [["z", C([3])]]})], [9, [1]]),
+               ("map", [("func", FN("mfree:f"))], [[[1], [2]], []])]
+    for name, args, ins in handing:
+        for how in ("c", "d"):
+            bargs = []
+            for pn, v in args:
+                if isinstance(v, dict) and ("many" in v or "dict" in v):
+                    bargs.append([pn, v])
+                elif how == "d" and not isinstance(v, str):
+                    bargs.append([pn, O("K_" + pn.strip("_"), v, True)])
+                else:
+                    bargs.append([pn, C(v)])
+            h = {"k": "helper", "name": name, "args": bargs}
+            for expr in (["+", ["S", 1], ["S", 2]], ["+", ["+", ["S", 1], ["S", 2]], ["+", ["S", 1], ["S", 2]]]):
+                cs.append({"kind": "pipe", "steps": [[1, h], [2, scrib]], "expr": expr, "options": [], "inputs": ins,
+                           "source": C(ins[0]), "family": "mut"})
+    # (d) the helper table on container arguments with function arguments that edit what they are called with
+    for name, lst in HELPER_MUT_CASES.items():
+        for args, inp, flags in lst:
+            for c in helper_variants(name, args, inp, flags):
+                # observed on the unchanged source, kept out of the oracle: an option VALUE that is (or holds) a
+                # tuple or a set is handed to the body as the caller's own object (lists and dicts are rebuilt),
+                # so a body editing it edits the caller's options dictionary
+                if any(holds_tuple_or_set(v) for _, v in c["options"]):
+                    continue
+                c["family"] = "mut"
+                cs.append(c)
+    return cs
+
+
+def holds_tuple_or_set(j) -> bool:
+    if isinstance(j, list):
+        return any(holds_tuple_or_set(x) for x in j)
+    if isinstance(j, dict):
+        if "t" in j or "s" in j:
+            return True
+        return any(holds_tuple_or_set(v) for v in j.values())
+    return False
+
+
+HELPER_MUT_CASES: Dict[str, List[Tuple[list, Any, str]]] = {
+    "partial": [([("__func", FN("mfree:f")), ("args", {"many": [[1, 2], DICT(["k", [1]])]}), ("kwargs", {"dict": [["z", [3]]]})],
+                 9, "model oracle"),
+                ([("__func", FN("mfree:f")), ("kwargs", {"dict": [["acc", TUP(1, [2])], ["cfg", DICT()]]})], [1], "model oracle")],
+    "reduce": [([("func", FN("mfree:g")), ("initial", [0])], [1, 2], "model oracle"),
+               ([("func", FN("mfree:g")), ("initial", DICT(["n", [0]]))], [1], "model oracle"),
+               ([("func", FN("mfree:g")), ("initial", TUP([1], 2))], [[3]], "model oracle")],
+    "map": [([("func", FN("mfree:f"))], [[1], [2]], "model oracle")],
+    "flatmap": [([("func", FN("mfree:f"))], [], "model oracle")],
+    "into": [([("func", FN("mfree:f"))], [[1], 2], "model oracle"), ([("func", FN("mfree:f"))], DICT(["a", [1]]), "model oracle")],
+    "map_values": [([("func", FN("mfree:f"))], DICT(["a", [1]]), "model oracle")],
+    "ensure": [([("__predicate", FN("mfree:f"))], [1], "model oracle")],
+    "all": [([("funcs", {"many": [FN("mfree:f"), FN("mfree:g")]})], [1], "model oracle")],
+}
+
+
+def mut_histogram(cases: List[dict], stats: Dict[str, int]) -> Dict[str, Any]:
+    """what the directed family of this run was made of (counted on the cases, not constants)"""
+    kinds: Dict[str, int] = {}
+    vias: Dict[str, int] = {}
+    ops: Dict[str, int] = {}
+    depth: Dict[str, int] = {}
+    twice = several = pipes = helpers = mfree = 0
+    for c in cases:
+        if c.get("family") != "mut":
+            continue
+        if '"mfree:' in json.dumps(c):
+            mfree += 1
+        if c["kind"] == "helper":
+            helpers += 1
+            continue
+        pipes += 1
+        defs = dict((t, d) for t, d in c["steps"])
+        uses: Dict[int, int] = {}
+
+        def count(e):
+            if e[0] == "+":
+                count(e[1]); count(e[2])
+            elif e[0] in ("S", "C", "K"):
+                if defs[e[1]]["k"] == "nested":
+                    count(defs[e[1]]["expr"])
+                else:
+                    uses[e[1]] = uses.get(e[1], 0) + 1
+                if e[0] == "K" and len(e) > 2:
+                    count(e[2])
+        count(c["expr"])
+        muts = [t for t in uses if defs[t]["k"] == "mut"]
+        if any(uses[t] >= 2 for t in muts):
+            twice += 1
+        if muts:
+            several += 1
+        for t in muts:
+            d = defs[t]
+            kinds[d.get("const_kind", "?")] = kinds.get(d.get("const_kind", "?"), 0) + 1
+            vias[d["via"]] = vias.get(d["via"], 0) + 1
+            for target, path, op, _ in d["edits"]:
+                ops[op] = ops.get(op, 0) + 1
+                if target != "x":
+                    depth[str(len(path))] = depth.get(str(len(path)), 0) + 1
+    return {"pipeline_cases": pipes, "helper_cases": helpers, "cases_with_a_step_used_twice_in_one_pipeline": twice,
+            "cases_whose_step_objects_are_shared_by_several_pipelines": several,
+            "cases_with_function_arguments_that_edit_their_arguments": mfree,
+            "steps_by_kind_of_written_default": kinds, "steps_by_spelling": vias, "edits_by_operation": ops,
+            "edits_by_depth_inside_the_default": depth,
+            "body_entries_logged": stats.get("entries", 0),
+            "received_parameters_compared_with_the_written_value": stats.get("checked", 0),
+            "oracle": "every law of the check (bracketing, (p+q).transform, >>, iteration order, keys/explain, history "
+                      "independence against a freshly built pipeline, model agreement) plus: the value a body receives "
+                      "for a parameter equals the value written in the step's definition"}
+
 # ----------------------------------------------------------------------------- running both sides
 
 def run_impl(cases: List[dict]) -> List[Dict[str, Any]]:
@@ -1277,8 +1791,32 @@ def run_impl(cases: List[dict]) -> List[Dict[str, Any]]:
     return [json.loads(l) for l in lines]
 
 
+def to_model(j):
+    """the case as the model reads it: a step whose body edits what it receives denotes the pure function of the
+    values written in its definition (its spelling decides which constructor of the model it is); a function
+    constant that scribbles over its arguments denotes the free function of the same name"""
+    if isinstance(j, list):
+        return [to_model(x) for x in j]
+    if not isinstance(j, dict):
+        return j
+    if j.get("k") == "mut":
+        params = to_model(j.get("params", []))
+        if j.get("via") == "fpartial_pos":
+            return {"k": "helper", "name": "partial", "args": [["__func", C(FN("free:" + j["name"]))],
+                                                               ["args", {"many": [b for _, b in params]}]]}
+        if j.get("via") == "fpartial":
+            return {"k": "helper", "name": "partial", "args": [["__func", C(FN("free:" + j["name"]))],
+                                                               ["kwargs", {"dict": params}]]}
+        if j["base"] == "dec":
+            return {"k": "dec", "prim": j["prim"], "params": params}
+        return {"k": "free", "name": j["name"], "params": params}
+    if isinstance(j.get("F"), str) and j["F"].startswith("mfree:"):
+        return {**{k: to_model(v) for k, v in j.items()}, "F": "free:" + j["F"][6:]}
+    return {k: to_model(v) for k, v in j.items()}
+
+
 def run_model(cases: List[dict]) -> List[Dict[str, Any]]:
-    lines = run_driver("drv_pipeline", [json.dumps(c) for c in cases])
+    lines = run_driver("drv_pipeline", [json.dumps(to_model(c)) for c in cases])
     if len(lines) != len(cases):
         raise Infra(f"drv_pipeline printed {len(lines)} lines for {len(cases)} cases")
     return [json.loads(l) for l in lines]
@@ -1354,8 +1892,13 @@ def describe(case: dict) -> str:
     return f"pipeline of {len(leaves_of(case['expr']))} operands"
 
 
-def evaluate(cases: List[dict], with_model: bool = True) -> List[List[Tuple[str, str, Dict[str, Any]]]]:
+def evaluate(cases: List[dict], with_model: bool = True,
+             stats: Optional[Dict[str, int]] = None) -> List[List[Tuple[str, str, Dict[str, Any]]]]:
     impl = run_impl(cases)
+    if stats is not None:
+        for o in impl:
+            for k, v in (o.get("mut") or {}).items():
+                stats[k] = stats.get(k, 0) + v
     want = [i for i, c in enumerate(cases) if with_model and c.get("model", True)]
     model_out: Dict[int, Dict[str, Any]] = {}
     if want:
@@ -1495,6 +2038,7 @@ def build_cases(ctx: Ctx, scale: float = 1.0) -> List[dict]:
     cases = pipe_corpus()
     cases += exhaustive(6 if thorough else 5)
     cases += helper_corpus()
+    cases += mutable_family(ctx.seed, thorough)
     n_random = int((25000 if thorough else 2500) * scale)
     for i in range(n_random):
         cases.append(g.case(rng.choice([1, 2, 2, 3, 3, 4, 4, 5, 5, 6, 6])))
@@ -1521,8 +2065,9 @@ def explore_core(ctx: Ctx, with_model: bool, scale: float = 1.0) -> Tuple[List[F
         findings.append(Finding("translator", p, {"source": str(REPO / "labrea" / "functions.py")}))
     judged: List[List[Tuple[str, str, Dict[str, Any]]]] = []
     CH = 1500
+    stats: Dict[str, int] = {}
     for i in range(0, len(cases), CH):
-        judged += evaluate(cases[i:i + CH], with_model)
+        judged += evaluate(cases[i:i + CH], with_model, stats)
     seen_what = set()
     disagreements = 0
     errs: Dict[str, int] = {}
@@ -1551,10 +2096,14 @@ def explore_core(ctx: Ctx, with_model: bool, scale: float = 1.0) -> Tuple[List[F
     hc = [c for c in cases if c["kind"] == "helper"]
     if hc:
         samples.append(json.dumps(hc[len(hc) // 2])[:300])
+    mc = [c for c in cases if c.get("family") == "mut" and c["kind"] == "pipe"]
+    if mc:
+        samples.append(json.dumps(mc[len(mc) // 3])[:600])
     cov = {"evaluations": len(cases), "distinct_nontrivial": len(distinct),
            "rule": "pipeline cases with >= 2 non-empty operands of +, and every helper case",
            "programs": len(cases), "disagreements_checked": disagreements, "samples": samples,
            "distribution": histogram(cases, errs),
+           "steps_editing_their_parameters": mut_histogram(cases, stats),
            "translator": {"rows": len(TRANSLATED_ROWS), "problems": TRANSLATOR_PROBLEMS}}
     return findings, cov
 
